@@ -110,6 +110,7 @@ func buildTagFields(rt reflect.Type, nested, omitEmpty bool) (fa []*finfo) {
 			if f.Type.Kind() == reflect.Ptr {
 				for _, fi := range buildTagFields(f.Type.Elem(), nested, omitEmpty) {
 					fi.index = append([]int{i}, fi.index...)
+					fi.ivalue = skipNilEmbedded(fi.ivalue)
 					fi.value = fi.ivalue
 					fa = append(fa, fi)
 				}
@@ -163,6 +164,7 @@ func buildExactFields(rt reflect.Type, nested, omitEmpty bool) (fa []*finfo) {
 			if f.Type.Kind() == reflect.Ptr {
 				for _, fi := range buildExactFields(f.Type.Elem(), nested, omitEmpty) {
 					fi.index = append([]int{i}, fi.index...)
+					fi.ivalue = skipNilEmbedded(fi.ivalue)
 					fi.value = fi.ivalue
 					fa = append(fa, fi)
 				}
@@ -193,6 +195,7 @@ func buildLowFields(rt reflect.Type, nested, omitEmpty bool) (fa []*finfo) {
 			if f.Type.Kind() == reflect.Ptr {
 				for _, fi := range buildLowFields(f.Type.Elem(), nested, omitEmpty) {
 					fi.index = append([]int{i}, fi.index...)
+					fi.ivalue = skipNilEmbedded(fi.ivalue)
 					fi.value = fi.ivalue
 					fa = append(fa, fi)
 				}
